@@ -27,6 +27,7 @@ type Oblig struct {
 	Cand    int  // >=0: Houdini candidate index this obligation checks
 	CandLoop string
 	CandDesc string
+	ForceFail bool // statically known to fail (no solver call): e.g. frame after an un-contracted callee
 	Frame    bool // frame obligation: quantified frame axioms are added to the query
 	nFrameAx int
 	Canary  bool // must be refuted (vacuity guard)
@@ -52,6 +53,15 @@ type Options struct {
 	Disabled    map[string]map[string]bool // per loop key: auto-candidates (by description) dropped by Houdini
 	HeapKeys    map[string]string          // heap keys (with sorts) seen in a previous run: pre-registered so loop frame candidates cover them
 	ServiceLoops map[string]bool           // loop keys that are intentionally unbounded service loops (no variant obligation)
+}
+
+// lockHavoc records an owned field forgotten at a lock acquisition.
+type lockHavoc struct {
+	fieldKey string
+	owner    smt.Term
+	old      smt.Term
+	fresh    smt.Term
+	typ      types.Type
 }
 
 type loopFrame struct {
@@ -112,6 +122,10 @@ type funcVerifier struct {
 	exit        *State
 	entryBase   *heapBase
 	lockSnap    *State
+	lockHavocs  []lockHavoc
+	wildHavoc   bool // the whole heap was forgotten outside a loop head (un-contracted callee, undeclared lock)
+	inLoopHavoc bool
+	ghostTypes  map[string]types.Type
 
 	notes   []string // abstractions applied (reported in evidence)
 	reject  string   // non-empty: function outside the supported subset
@@ -184,7 +198,7 @@ func (p *Program) VerifyFunc(fi *FuncInfo, opt Options) (res *FuncResult) {
 	fv := &funcVerifier{prog: p, fi: fi, pkg: fi.Pkg, info: fi.Pkg.TypesInfo, opt: opt,
 		c: smt.NewCtx(), heapSorts: map[string]string{}, baseCache: map[string]smt.Term{}, idCount: map[string]int{},
 		boxed: map[*types.Var]bool{}, volatile: map[*types.Var]bool{}, volField: map[string]bool{},
-		inputDescr: map[string]string{}, candLog: map[string][]string{}, volMem: map[string]bool{}, frameInst: map[string]int{}}
+		inputDescr: map[string]string{}, candLog: map[string][]string{}, volMem: map[string]bool{}, frameInst: map[string]int{}, ghostTypes: map[string]types.Type{}}
 	fv.so = newSorts(fv.c)
 	for k, so := range opt.HeapKeys {
 		fv.heapSorts[k] = so
